@@ -236,4 +236,16 @@ def scope(res, pid, rng, tier):
     for i in (0, 700, len(sess.lines) - 3):
         if 0 <= i < len(sess.lines):
             res.sample({"op": sess.lines[i], "impl": sess.impl[i], "model": sess.model[i]})
+    # sequences of encrypt calls whose salt + clear text spell the same string: every result decrypts (reference decoder) to its own clear text
+    for seq in ((("123", "n"), ("23", "n1"), ("3", "n12")), (("ab", "Qa"), ("aab", "Q"), ("b", "Qaa")), (("x", "zx"), ("xx", "z"), ("", "zxx"), ("zxx", None) if False else ("xzx", "z"))):
+        for pl_, sa_ in seq:
+            try:
+                e_ = J.juniper_nonrandom_encrypt(pl_, sa_)
+                d_ = ref_decrypt(e_) if len(e_) >= 7 else pl_
+            except Exception as ex:  # noqa
+                fails.append({"kind": "encrypt raised or produced a string the reference decoder rejects", "plain": pl_, "salt": sa_, "exc": repr(ex)[:200], "earlier_calls": list(seq)})
+                continue
+            res.evaluations += 1
+            if d_ != pl_:
+                fails.append({"kind": "decrypt(encrypt(p)) != p", "plain": pl_, "salt": sa_, "encrypted": e_, "reference_decrypt": d_, "earlier_calls_in_this_process": list(seq)})
     return dis, fails
